@@ -359,6 +359,34 @@ func (e *Engine) evCall(c *ast.CallExpr, st *State) []Value {
 				}
 				e.fail(c.Pos(), "rangeWidth(): not inside a range-over-string body")
 			}
+		case "visited":
+			// visited(x): the function named by `opt ghostvisit` has been called on x in this activation
+			if e.isSpecHelper(id) {
+				v := e.ev(c.Args[0], st)
+				v = e.coerce(v, e.pk.Info.TypeOf(c.Args[0]), st)
+				if _, isI := types.Unalias(v.Typ).Underlying().(*types.Interface); !isI {
+					v = Value{e.box(v), types.NewInterfaceType(nil, nil)}
+				}
+				return []Value{{sx("select", e.heapGet(st, ghVisited, ghVisitedSort), v.T), types.Typ[types.Bool]}}
+			}
+		case "nvisits":
+			// nvisits(): number of calls of the `opt ghostvisit` function with a non-nil argument in this activation
+			if e.isSpecHelper(id) {
+				return []Value{{e.heapGet(st, ghCount, e.isort()), types.Typ[types.Int]}}
+			}
+		case "freshSlice":
+			// freshSlice(s): the backing array of s was allocated by the function under verification (or s is nil)
+			if e.isSpecHelper(id) && e.entry != nil {
+				v := e.ev(c.Args[0], st)
+				return []Value{{or(eq(sx("l_ref", v.T), e.izero()), e.lt(e.entry.top, sx("l_ref", v.T))), types.Typ[types.Bool]}}
+			}
+		case "sameDynType":
+			// sameDynType(a, b): the interface values a and b have the same dynamic type
+			if e.isSpecHelper(id) {
+				a := e.ev(c.Args[0], st)
+				b := e.ev(c.Args[1], st)
+				return []Value{{eq(sx("i_tid", a.T), sx("i_tid", b.T)), types.Typ[types.Bool]}}
+			}
 		case "typedNil":
 			// typedNil(x): the interface value x holds a nil pointer (a non-nil interface whose payload is nil)
 			if e.isSpecHelper(id) {
@@ -411,6 +439,21 @@ func (e *Engine) evCall(c *ast.CallExpr, st *State) []Value {
 	}
 	// interface method
 	if se, ok := fun.(*ast.SelectorExpr); ok && recv != nil {
+		if strings.HasPrefix(recv.T, "(mk-ifc ") {
+			// the receiver was boxed from a value of a known concrete type: the call is resolved statically
+			var id int
+			if _, err := fmt.Sscanf(recv.T, "(mk-ifc %d ", &id); err == nil && id > 0 {
+				if ct := e.tidTypes[id]; ct != nil {
+					if msel := types.NewMethodSet(ct).Lookup(e.pk.Types, se.Sel.Name); msel != nil {
+						if mfn, ok := msel.Obj().(*types.Func); ok {
+							rv := e.unbox(recv.T, ct)
+							rv = e.methodRecv(st, rv, msel, se.Pos())
+							return e.callStatic(c, mfn, mfn.Type().(*types.Signature), &rv, args, st)
+						}
+					}
+				}
+			}
+		}
 		if res, ok := e.ifaceStub(c, se, *recv, args, sig, st); ok {
 			return res
 		}
@@ -651,6 +694,9 @@ func (e *Engine) callStatic(c *ast.CallExpr, fn *types.Func, sig *types.Signatur
 				}
 				st.vars[e.trackFlag(n)] = Value{"true", types.Typ[types.Bool]}
 			}
+		}
+		if gv := e.c.Opts["ghostvisit"]; gv != "" && gv == fn.Name() && len(args) > 0 && len(e.inlineStack) == 0 {
+			e.ghostVisit(st, args[len(args)-1])
 		}
 	}
 	return res
